@@ -221,6 +221,63 @@ func aliasMethods() []aMeth {
 	d1("d.absMut", true, "d.abs", SD.AbsMut)
 	ms = append(ms, aMeth{"d.truncateInt", kD, kN, kS, false, "", func(x, y *aVal) *aVal { return &aVal{k: kS, S: x.D.TruncateInt()} }})
 	ms = append(ms, aMeth{"d.roundInt", kD, kN, kS, false, "", func(x, y *aVal) *aVal { return &aVal{k: kS, S: x.D.RoundInt()} }})
+	ms = append(ms, aMeth{"d.mulInt64", kD, ki, kD, false, "", func(x, y *aVal) *aVal { return D(x.D.MulInt64(y.n)) }})
+	ms = append(ms, aMeth{"d.quoInt64", kD, ki, kD, false, "", func(x, y *aVal) *aVal { return D(x.D.QuoInt64(y.n)) }})
+	ms = append(ms, aMeth{"d.mulInt64Mut", kD, ki, kD, true, "d.mulInt64", func(x, y *aVal) *aVal { return D(x.D.MulInt64Mut(y.n)) }})
+	ms = append(ms, aMeth{"d.quoInt64Mut", kD, ki, kD, true, "d.quoInt64", func(x, y *aVal) *aVal { return D(x.D.QuoInt64Mut(y.n)) }})
+	// ---- osmomath.BigInt (int.go): every method is non-mutating
+	type BI = osmomath.BigInt
+	I := func(v BI) *aVal { return &aVal{k: kI, I: v} }
+	ii := func(name string, f func(x, y BI) BI) {
+		ms = append(ms, aMeth{name, kI, kI, kI, false, "", func(x, y *aVal) *aVal { return I(f(x.I, y.I)) }})
+	}
+	ir := func(name string, f func(x BI, n int64) BI) {
+		ms = append(ms, aMeth{name, kI, ki, kI, false, "", func(x, y *aVal) *aVal { return I(f(x.I, y.n)) }})
+	}
+	ii("bi.add", BI.Add)
+	ii("bi.sub", BI.Sub)
+	ii("bi.mul", BI.Mul)
+	ii("bi.quo", BI.Quo)
+	ii("bi.mod", BI.Mod)
+	ii("bi.min", osmomath.MinBigInt)
+	ii("bi.max", osmomath.MaxBigInt)
+	ir("bi.addRaw", BI.AddRaw)
+	ir("bi.subRaw", BI.SubRaw)
+	ir("bi.mulRaw", BI.MulRaw)
+	ir("bi.quoRaw", BI.QuoRaw)
+	ir("bi.modRaw", BI.ModRaw)
+	ms = append(ms, aMeth{"bi.neg", kI, kN, kI, false, "", func(x, y *aVal) *aVal { return I(x.I.Neg()) }})
+	ms = append(ms, aMeth{"bi.abs", kI, kN, kI, false, "", func(x, y *aVal) *aVal { return I(x.I.Abs()) }})
+	ms = append(ms, aMeth{"bi.toDec", kI, kN, kB, false, "", func(x, y *aVal) *aVal { return B(x.I.ToDec()) }})
+	ms = append(ms, aMeth{"newFromIntWithPrec", kI, ku, kB, false, "", func(x, y *aVal) *aVal { return B(osmomath.NewBigDecFromIntWithPrec(x.I, y.n)) }})
+	// ---- sdk Int (cosmossdk.io/math)
+	type SI = osmomath.Int
+	S := func(v SI) *aVal { return &aVal{k: kS, S: v} }
+	ss := func(name string, f func(x, y SI) SI) {
+		ms = append(ms, aMeth{name, kS, kS, kS, false, "", func(x, y *aVal) *aVal { return S(f(x.S, y.S)) }})
+	}
+	sr := func(name string, f func(x SI, n int64) SI) {
+		ms = append(ms, aMeth{name, kS, ki, kS, false, "", func(x, y *aVal) *aVal { return S(f(x.S, y.n)) }})
+	}
+	ss("si.add", SI.Add)
+	ss("si.sub", SI.Sub)
+	ss("si.mul", SI.Mul)
+	ss("si.quo", SI.Quo)
+	ss("si.mod", SI.Mod)
+	ss("si.min", osmomath.MinInt)
+	ss("si.max", osmomath.MaxInt)
+	sr("si.addRaw", SI.AddRaw)
+	sr("si.subRaw", SI.SubRaw)
+	sr("si.mulRaw", SI.MulRaw)
+	sr("si.quoRaw", SI.QuoRaw)
+	sr("si.modRaw", SI.ModRaw)
+	ms = append(ms, aMeth{"si.neg", kS, kN, kS, false, "", func(x, y *aVal) *aVal { return S(x.S.Neg()) }})
+	ms = append(ms, aMeth{"si.abs", kS, kN, kS, false, "", func(x, y *aVal) *aVal { return S(x.S.Abs()) }})
+	ms = append(ms, aMeth{"si.toLegacyDec", kS, kN, kD, false, "", func(x, y *aVal) *aVal { return D(x.S.ToLegacyDec()) }})
+	ms = append(ms, aMeth{"fromSDKInt", kS, kN, kB, false, "", func(x, y *aVal) *aVal { return B(osmomath.BigDecFromSDKInt(x.S)) }})
+	// ---- selection helpers of decimal.go
+	bb("minBigDec", false, "", osmomath.MinBigDec)
+	bb("maxBigDec", false, "", osmomath.MaxBigDec)
 	return ms
 }
 
@@ -295,6 +352,9 @@ func (g *Gen) aScalar(m *aMeth) (int64, string) {
 	case "powerInteger", "powerIntegerMut":
 		p := []int64{0, 1, 2, 3, 4, 7, 10}[g.Intn(7)]
 		return p, fmt.Sprintf("power=%d", p)
+	case "newFromIntWithPrec":
+		p := []int64{0, 1, 18, 35, 36, 37}[g.Intn(6)]
+		return p, fmt.Sprintf("p=%d", p)
 	}
 	n := []int64{0, 1, -1, 10, -3, 1 << 40, 1<<63 - 1, -1 << 63}[g.Intn(8)]
 	switch {
@@ -326,6 +386,8 @@ type aliasEng struct {
 	doUn  func(op unOp, a *big.Int)
 	dops  map[string]decOp
 	doDec func(op decOp, a, b *big.Int)
+	// ... of the integer types (numint.go): name "bi.<op>" / "si.<op>"
+	ival func(name string, a, b *big.Int) bool
 }
 
 func newAliasEng(g *Gen, o *Out, bops []numOp, do func(op numOp, a, b *big.Int)) *aliasEng {
@@ -568,7 +630,10 @@ func (e *aliasEng) valueLine(m *aMeth, x, y *aVal) {
 	if m.name == "quoRoundUpMut" || m.name == "quoRoundUpNextIntMut" {
 		name = m.name
 	}
-	if op, ok := e.bops[name]; ok && (m.arg == kB || m.arg == kD || m.arg == kI) {
+	if e.ival != nil && (m.recv == kI || m.recv == kS) && e.ival(m.name, x.read(), y.read()) {
+		return
+	}
+	if op, ok := e.bops[name]; ok && (m.arg == kB || m.arg == kD || m.arg == kI || m.arg == ki) {
 		e.do(op, x.read(), y.read())
 		return
 	}
